@@ -487,6 +487,17 @@ func (t *toks) coqConfig(cfg *configv1beta1.KatibConfig) string {
 	return "(Some " + kit.Rec("KatibConfig", sug, es) + ")"
 }
 
+func copyMap(m map[string]string) map[string]string {
+	if m == nil {
+		return nil
+	}
+	c := make(map[string]string, len(m))
+	for k, v := range m {
+		c[k] = v
+	}
+	return c
+}
+
 func coqSuggestion(s *suggestionsv1beta1.Suggestion) string {
 	es := "None"
 	if s.Spec.EarlyStopping != nil {
@@ -560,7 +571,7 @@ func (c17) Run(input any) kit.Case {
 	}
 
 	sg := &suggestionsv1beta1.Suggestion{
-		ObjectMeta: metav1.ObjectMeta{Name: in.S.Name, Namespace: in.S.Namespace, UID: types.UID(in.S.UID), Labels: in.S.Labels, Annotations: in.S.Annotations},
+		ObjectMeta: metav1.ObjectMeta{Name: in.S.Name, Namespace: in.S.Namespace, UID: types.UID(in.S.UID), Labels: copyMap(in.S.Labels), Annotations: copyMap(in.S.Annotations)},
 		Spec: suggestionsv1beta1.SuggestionSpec{Algorithm: &commonv1beta1.AlgorithmSpec{AlgorithmName: in.S.Algorithm}, Requests: 1,
 			ResumePolicy: experimentsv1beta1.ResumePolicyType(in.S.Resume)},
 	}
@@ -571,6 +582,7 @@ func (c17) Run(input any) kit.Case {
 		sg.Spec.EarlyStopping = &commonv1beta1.EarlyStoppingSpec{AlgorithmName: *in.S.ES}
 		exp.Spec.EarlyStopping = &commonv1beta1.EarlyStoppingSpec{AlgorithmName: *in.S.ES}
 	}
+	sg0 := sg.DeepCopy() // what the model is given: the suggestion as it is before any katib code has seen it
 	sg.MarkSuggestionStatusCreated("SuggestionCreated", "Suggestion is created")
 	objs = append(objs, sg.DeepCopy(), exp)
 	cl := fake.NewClientBuilder().WithScheme(scheme).WithObjects(objs...).
@@ -604,11 +616,24 @@ func (c17) Run(input any) kit.Case {
 		algE string
 		esE  string
 	)
-	p1 := kit.Recover(func() { dep, e1 = g.DesiredDeployment(sg.DeepCopy()) })
-	p2 := kit.Recover(func() { svc, e2 = g.DesiredService(sg.DeepCopy()) })
-	p3 := kit.Recover(func() { pvc, pv, e3 = g.DesiredVolume(sg.DeepCopy()) })
-	p4 := kit.Recover(func() { sa, ro, rb, e4 = g.DesiredRBAC(sg.DeepCopy()) })
-	p5 := kit.Recover(func() { algE = util.GetAlgorithmEndpoint(sg); esE = util.GetEarlyStoppingEndpoint(sg) })
+	// like ReconcileSuggestion, which passes one in-memory instance to DesiredVolume (FromVolume only), DesiredService,
+	// DesiredDeployment and DesiredRBAC in this order: the calls share one copy of the suggestion
+	shared := sg.DeepCopy()
+	volArg := shared
+	if sg.Spec.ResumePolicy != experimentsv1beta1.FromVolume {
+		volArg = sg.DeepCopy()
+	}
+	p3 := kit.Recover(func() { pvc, pv, e3 = g.DesiredVolume(volArg) })
+	p2 := kit.Recover(func() { svc, e2 = g.DesiredService(shared) })
+	p1 := kit.Recover(func() { dep, e1 = g.DesiredDeployment(shared) })
+	p4 := kit.Recover(func() { sa, ro, rb, e4 = g.DesiredRBAC(shared) })
+	p5 := kit.Recover(func() {
+		algE = util.GetAlgorithmEndpoint(sg.DeepCopy())
+		esE = util.GetEarlyStoppingEndpoint(sg.DeepCopy())
+	})
+	if js(shared) != js(sg) {
+		obs["note"] = "a Desired* function modified the suggestion it was given"
+	}
 	depCoq, o1 := outcome(p1, e1, readable, func() string { return t.coqDeployment(dep) })
 	svcCoq, o2 := outcome(p2, e2, readable, func() string { return coqService(svc) })
 	volCoq, o3 := outcome(p3, e3, readable, func() string { return t.coqVolume(pvc, pv) })
@@ -673,7 +698,7 @@ func (c17) Run(input any) kit.Case {
 		kit.ListOf(dials, func(d dial) string { return kit.Pair(kit.Bool(d.es), qs(d.target)) }),
 		kit.ListOf(created, func(o objRef) string { return kit.Rec("ObjRef", kit.Nat(o.Kind), qs(o.Namespace), qs(o.Name)) }),
 		kit.Bool(recErr != nil))
-	c.Coq = withStrings("C17.Case " + coqConsts(scheme) + " " + kit.Bool(in.Probe) + " " + cfgCoq + " " + coqSuggestion(sg) + " " + impl)
+	c.Coq = withStrings("C17.Case " + coqConsts(scheme) + " " + kit.Bool(in.Probe) + " " + cfgCoq + " " + coqSuggestion(sg0) + " " + impl)
 	c.Sig = js(in)
 	c.Observed = obs
 	if len(pans) > 0 {
